@@ -235,26 +235,28 @@ example : ∃ s', run (.up Store.init) [.compact [(0, [0, 1])], .vacuum] = .up s
 
 /-! ## Histories with DDL and reopen (name level) -/
 
-/-- **history_refines_spec**: `history_exact` extended to the full statement language — CREATE TABLE,
-DROP TABLE (and the same name created again), INSERT (any partition into row-sets), DELETE,
-compaction passes (any plan), vacuum passes and shutdown+reopen, in any order and number: every table
-NAME maps to the specification's definition and (as a bag) to exactly the rows inserted and not since
-deleted.  `GoodHist` = the guards of Lemmas/StoreInv.lean evaluated along the run (each one forced by
-a defect the checks reproduce on the engine). -/
-theorem history_refines_spec (h : List Op) (g : GoodHist Store.init h) :
+/-- **history_refines_spec**: `history_exact` extended to the full table statement language — CREATE
+TABLE, DROP TABLE (and the same name created again), INSERT (any partition into row-sets; NULL into
+NOT NULL rejected), DELETE, compaction passes (any plan), vacuum passes and shutdown+reopen, in any
+order and number: every table NAME maps to the specification's definition and (as a bag) to exactly
+the rows inserted and not since deleted.  No guard: the only hypothesis is that the history has no
+CREATE VIEW / CREATE INDEX (views are catalog-only and do not survive a reopen, C03's open findings;
+`Lemmas/StoreSim.goodHist_of_noView` shows the CREATE TABLE guard holds by itself here). -/
+theorem history_refines_spec (h : List Op) (hv : h.all Op.noView = true) :
     ∃ s, run (.up Store.init) h = .up s ∧ ∀ n, AbsEq (s.abs n) ((SpecSt.run {} h).tables.get n) :=
-  let ⟨s, h1, _, h3⟩ := hist_sim h Store.init {} inv_init sim_init g
+  let ⟨s, h1, _, h3⟩ := hist_sim_noView h Store.init {} inv_init aligned_init sim_init hv
   ⟨s, h1, h3.abs⟩
 
-/-- every guarded statement has the specification's outcome: same ok / error class, and INSERT's and
-DELETE's reported counts are the numbers of rows added / removed -/
-theorem statement_outcome_exact (s : Store) (inv : Inv s) (sp : SpecSt) (sim : Sim s sp) (op : Op) (g : Guard s op) :
+/-- every statement of the view-free fragment has the specification's outcome: same ok / error class,
+and INSERT's and DELETE's reported counts are the numbers of rows added / removed -/
+theorem statement_outcome_exact (s : Store) (inv : Inv s) (sp : SpecSt) (sim : Sim s sp) (op : Op)
+    (hv : op.noView = true) :
     (stepUp s op).2 = (sp.step op).2 :=
-  let ⟨_, h1, _⟩ := step_sim s inv sp sim op g
+  let ⟨_, h1, _⟩ := step_sim s inv sp sim op hv
   congrArg Prod.snd h1
 
-example : GoodHist Store.init [.create ⟨"t", [⟨"a", "INT", false, false⟩]⟩, .insert "t" [[[.i32 1]], [[.i32 2]]],
+example : List.all [.create ⟨"t", [⟨"a", "INT", false, false⟩]⟩, .insert "t" [[[.i32 1]], [[.i32 2]]],
     .delete "t" (fun r => r == [.i32 1]), .drop "t", .create ⟨"t", [⟨"b", "BIGINT", false, false⟩]⟩,
-    .insert "t" [[[.i64 7]]], .compact [(1, [2])], .reopen] := by decide
+    .insert "t" [[[.i64 7]]], .compact [(1, [2])], .reopen] Op.noView = true := by decide
 
 end RlModel
